@@ -47,9 +47,9 @@ def smt2(n):
     return "(set-logic QF_SLIA)\n" + s.to_smt2()
 import subprocess
 for n in (2, 3, 4, 6):
-    open(f"/tmp/probe/c19_{n}.smt2", "w").write(smt2(n))
+    open(f"/tmp/c19_{n}.smt2", "w").write(smt2(n))
     t = time.time()
     try:
-        out = subprocess.run(["/usr/bin/cvc5", "--strings-exp", "--tlimit=30000", f"/tmp/probe/c19_{n}.smt2"], capture_output=True, text=True, timeout=40).stdout.strip()
+        out = subprocess.run(["/usr/bin/cvc5", "--strings-exp", "--tlimit=30000", f"/tmp/c19_{n}.smt2"], capture_output=True, text=True, timeout=40).stdout.strip()
     except subprocess.TimeoutExpired: out = "timeout"
     print("cvc5", n, out, round(time.time() - t, 2))
